@@ -271,8 +271,10 @@ func (p *peer) run() {
 			p.inHoldDown = false
 		case err := <-p.errorCh[in]:
 			p.handleError(in, err)
+			verifPoint("run.aftererr")
 		case err := <-p.errorCh[out]:
 			p.handleError(out, err)
+			verifPoint("run.aftererr")
 		case t := <-p.transitionCh[in]:
 			verifEvent("m.trans", p, in, t.from, t.to)
 			p.handleStateTransition(in, t)
